@@ -225,6 +225,11 @@ def run_c09(tier, seed):
         if h['seed'] % 3 == 0:
             jobs.append((h['seed'], docs, True, False, 'files'))
             jobs.append((h['seed'], docs, True, False, 's3'))
+        if h['seed'] % 4 == 1 and len(docs) > 1 and '</mos>' in docs[0]:
+            # the roCreate document is a running order that was completed and saved earlier; late messages follow
+            done = docs[0].replace('</mos>', '<mosromgrmeta><roDelete><roID>RO1</roID></roDelete></mosromgrmeta></mos>')
+            for strict in (False, True):
+                jobs.append((h['seed'], [done] + docs[1:], True, strict, 'strings'))
     reqs = [model_req(docs, allow, strict) for (_, docs, allow, strict, _) in jobs]
     models = model_collection(reqs)
     for (hseed, docs, allow, strict, via), m in zip(jobs, models):
@@ -325,7 +330,8 @@ def run_c10(tier, seed):
                 oc.disagreements.append(dict(rec, what='collection outcome', impl=_brief(o), model=_brief_model(m)))
         # sorting MosFile objects
         try:
-            objs = [impl.load(t) for t in docs]
+            objs = [impl.load(t.replace('<roID>RO1</roID>', '<roID>%s</roID>' % ['RO1', 'ro1', 'ZZ', 'AA', 'RO1 '][k % 5], 1) if hi % 3 == 0 else t)
+                    for k, t in enumerate(docs)]         # sorting MosFile objects looks at the message ID only
         except Exception as e:  # noqa: BLE001
             oc.disagreements.append({'kind': 'load', 'what': 'a generated document is not classified (the model classifies it)', 'impl': impl.err_name(e)})
             continue
@@ -480,12 +486,17 @@ def c11_lists(tier):
                     roid_variants.append(('last-differs', ['RO1'] * (n - 1) + ['RO2']))
                     roid_variants.append(('first-differs', ['RO2'] + ['RO1'] * (n - 1)))
                     roid_variants.append(('creates-differ', ['RO2' if k == 'C' else 'RO1' for k in kinds]))
+                    roid_variants.append(('last-padded', ['RO1'] * (n - 1) + ['RO1 ']))     # IDs are opaque: 'RO1 ' is not 'RO1'
+                    roid_variants.append(('first-newline', ['RO1\n'] + ['RO1'] * (n - 1)))
+                    roid_variants.append(('case-differs', ['RO1'] * (n - 1) + ['ro1']))
                     roid_variants.append(('last-blank', ['RO1'] * (n - 1) + [None]))        # an empty <roID/> is an ID of its own
                     roid_variants.append(('first-blank', [None] + ['RO1'] * (n - 1)))
                     roid_variants.append(('all-blank', [None] * n))
                 for label, roids in roid_variants:
-                  for idmode in ('distinct', 'all-same'):
+                  for idmode in ('distinct', 'all-same', 'first-create-completed'):
                     if idmode == 'all-same' and n < 2:
+                        continue
+                    if idmode == 'first-create-completed' and nc == 0:
                         continue
                     for order in ('create-first', 'create-last', 'create-middle'):
                         ks = kinds if order == 'create-first' else list(reversed(kinds))
@@ -496,9 +507,13 @@ def c11_lists(tier):
                         docs = []
                         for i, (k, rid) in enumerate(zip(ks, roids)):
                             # all-same: every message carries one message ID (documents of one kind are then byte-identical)
-                            mid = str(8 + 3 * i) if idmode == 'distinct' else '8'
+                            mid = '8' if idmode == 'all-same' else str(8 + 3 * i)
                             if k == 'C':
-                                docs.append(TJ.to_text(B.ro_doc([B.story('A')], message_id=mid, ro_id=rid)))
+                                t = TJ.to_text(B.ro_doc([B.story('A')], message_id=mid, ro_id=rid))
+                                if idmode == 'first-create-completed' and 'roCreate' not in ''.join(docs):
+                                    # a roCreate document that was completed and saved earlier is still a roCreate
+                                    t = t.replace('</mos>', '<mosromgrmeta><roDelete><roID>x</roID></roDelete></mosromgrmeta></mos>')
+                                docs.append(t)
                             elif k == 'D':
                                 docs.append(TJ.to_text(B.ro_delete(message_id=mid, ro_id=rid)))
                             else:
